@@ -399,6 +399,20 @@ def run(tier, seed):
     for i in range(45 if quick else 300):
         calls = make_history(rng, rng.randint(8, 40))
         acc.check('history', 'pool', calls=calls, threads=(0 if i % 3 else (8 if i % 2 else 16)))
+    # crafted histories: a build that fails half way through a shared member, then builds through the same member (directly and through a
+    # construct that shares it), for every member of the pool that can fail after having written
+    s0 = dict(n=2, d=b'xy')
+    for bad, goods in [(('build', 'S12', dict(a=1, b=300, c=s0), {}), [('build', 'S12', dict(a=7, b=1, c=s0), {}), ('build', 'S13', dict(p=dict(a=1, b=2, c=s0), q=dict(a=3, b=4, c=s0), t=5), {})]),
+                       (('build', 'S13', dict(p=dict(a=1, b=2, c=s0), q=dict(a=3, b=300, c=s0), t=5), {}), [('build', 'S12', dict(a=7, b=1, c=s0), {}), ('build', 'S13', dict(p=dict(a=1, b=2, c=s0), q=dict(a=3, b=4, c=s0), t=5), {})]),
+                       (('build', 'S3', dict(a=s0, b=dict(n=300, d=b''), c=[s0, s0]), {}), [('build', 'S3', dict(a=s0, b=s0, c=[s0, s0]), {}), ('build', 'S2', [s0, s0], {}), ('build', 'S0', s0, {})]),
+                       (('build', 'S2', [s0, dict(n=2, d=b'toolong')], {}), [('build', 'S2', [s0], {}), ('build', 'S11', s0, {})]),
+                       (('build', 'S11', dict(n=300, d=b''), {}), [('build', 'S11', s0, {}), ('build', 'S12', dict(a=7, b=1, c=s0), {})]),
+                       (('build', 'S17', dict(n=2, d=b'ab', e=b'x' * 300, f=b'abc'), {}), [('build', 'S17', dict(n=2, d=b'ab', e=b'xyz', f=b'abc'), {})]),
+                       (('build', 'S16', dict(k=1, d=b'abc', e=b'toolong'), {}), [('build', 'S16', dict(k=1, d=b'abc', e=b'ab'), {})]),
+                       (('parse', 'S12', b'\x09\x01\x02', {}), [('parse', 'S12', b'\x04\x01\x02\x01\x41', {}), ('build', 'S12', dict(a=7, b=1, c=s0), {})]),
+                       (('parse', 'S2', b'\x03\x01\x41\x05', {}), [('parse', 'S2', b'\x01\x01\x41', {}), ('build', 'S2', [s0], {})])]:
+        acc.check('history', 'pool', calls=[bad] + goods, threads=0)
+        acc.check('history', 'pool', calls=[bad, bad] + goods + [bad] + goods[::-1], threads=0)
     # ---- the same histories on the model: the model is a function of (construct, input, context) by construction, the
     # implementation runs the calls of a chunk one after the other on the same objects ----
     cases = []
